@@ -120,7 +120,7 @@ let run_target (hd : string) (f : fmt) (target : string) (bytes : n list) : unit
   match target with
   | "any" -> show hd pr_aval (run_fast (decode f (dec_any fuel)) bytes)
   | "map" -> show hd pr_aval (run_fast (decode f (dec_map fuel)) bytes)
-  | "raw" -> show hd (fun b (id, data) -> Buffer.add_string b ("R" ^ dec_of_n id ^ ":"); hexs b data) (run_fast (decode f (dec_raw fuel)) bytes)
+  | "raw" -> show hd (fun b (id, data) -> Buffer.add_string b ("R" ^ dec_of_n id ^ ":"); hexs b data) (decode_raw_fast f fuel bytes)   (* = run_flat (Decode f (dec_raw fuel)): decode_raw_fast_eq *)
   | "dyn" -> show hd pr_dval (run_fast (decode f (dec_dyn fuel)) bytes)
   | "snbt" -> show hd (fun b () -> Buffer.add_char b '-') (run_fast (decode f (dec_snbt fuel)) bytes)
   | "skip" -> show hd (fun b () -> Buffer.add_char b '-') (run_fast (decode f (dec_struct0 fuel)) bytes)
